@@ -58,10 +58,25 @@ def emit(S, template, args, workdir):
     if 'EMIT-ERROR' in p.stderr: raise EmitError('backend error: ' + p.stderr[-800:])
     summ = json.loads(p.stdout)
     files = {}
-    for root, _, fs in os.walk(d):
+    for root, dirs, fs in os.walk(d):
+        if '.builds' in dirs: dirs.remove('.builds')
         for f in fs:
             files[os.path.relpath(os.path.join(root, f), d)] = open(os.path.join(root, f)).read()
     return summ, files
+
+
+def emitted_builds(workdir):
+    """[{relative path: text}] per build of the last emit() call (a product template builds twice)"""
+    base = os.path.join(workdir, 'emit', '.builds')
+    out = []
+    if not os.path.isdir(base): return out
+    for n in sorted(os.listdir(base), key=lambda x: int(x) if x.isdigit() else 0):
+        d = os.path.join(base, n); fl = {}
+        for root, _, fs in os.walk(d):
+            for f in fs:
+                fl[os.path.relpath(os.path.join(root, f), d)] = open(os.path.join(root, f)).read()
+        out.append(fl)
+    return out
 
 
 # ------------------------------------------------------------------ textual checks done before normalisation
